@@ -501,6 +501,20 @@ func checkSourceCompare(p *core.Prog, r *core.Result, rule string) {
 				if nn, known := p.FactsAt(ret).ErrNonNil(rv[1]); known && nn {
 					continue
 				}
+				// non-nil known through a named predicate (if !missingOrNil(err) { return "", err })
+				viaPredicate := false
+				for _, xf := range xfacts(p, ret) {
+					b, isB := xf.Cond.(*ssa.BinOp)
+					if !isB || !core.IsNilConst(b.Y) || xf.Arg(b.X) != rv[1] {
+						continue
+					}
+					if b.Op == token.EQL && !xf.Val || b.Op == token.NEQ && xf.Val {
+						viaPredicate = true
+					}
+				}
+				if viaPredicate {
+					continue
+				}
 				if !core.IsNilConst(rv[1]) {
 					if _, isE := rv[1].(*ssa.Extract); !isE {
 						return false
